@@ -6,7 +6,6 @@
 -/
 import Gts.Gen.Arith
 import Gts.Model.Loc
-import Gts.Model.Origin
 namespace Gts.Bridge
 open Gts
 
@@ -30,12 +29,6 @@ theorem rangeOverlap_eq : Gen.rangeOverlap = Loc.rangeOverlap := by
   funext s e l u
   simp only [Gen.rangeOverlap, Loc.rangeOverlap]
   by_cases h1 : e < s <;> by_cases h2 : u < l <;> simp [h1, h2]
-
-theorem toOriginLength_eq : Gen.toOriginLength = Gts.Origin.toOriginLength := by
-  funext n; simp only [Gen.toOriginLength, Gts.Origin.toOriginLength]
-
-theorem fromOriginLength_eq : Gen.fromOriginLength = Gts.Origin.fromOriginLength := by
-  funext n; simp only [Gen.fromOriginLength, Gts.Origin.fromOriginLength]
 
 theorem betweenExpand_eq : Gen.betweenExpand = Loc.betweenExpand := by
   funext p i n
